@@ -435,6 +435,16 @@ pub fn run() {
                 }
                 std::fs::hard_link(&a, &b).unwrap();
             }
+            "symlink" => {
+                // symlink <target text> <link path>: the administrator placed a symbolic link (implementation-only
+                // scenarios: the model has no symbolic links)
+                let _g = Paused::new();
+                let b = cfg.root.join(unesc_path(f[2]));
+                if let Some(par) = b.parent() {
+                    std::fs::create_dir_all(par).unwrap();
+                }
+                std::os::unix::fs::symlink(unesc_path(f[1]), &b).unwrap();
+            }
             "mkdirt" => {
                 // directory with explicit modification / access time (after its content is planted)
                 let _g = Paused::new();
